@@ -41,23 +41,23 @@ type mplexScn struct {
 }
 
 type mplexObs struct {
-	ID        int    `json:"id"`
-	Shape     string `json:"shape"`
-	Framing   string `json:"framing"`
+	ID      int    `json:"id"`
+	Shape   string `json:"shape"`
+	Framing string `json:"framing"`
 	// what the real server emitted
-	NFrames   int    `json:"nframes"`
-	MaxLen    int    `json:"maxlen"`
-	Tags      []int  `json:"tags"`
-	Parsed    bool   `json:"parsed"`    // the server's stream was a sequence of complete, well-formed frames up to its end
-	StreamLen int    `json:"streamlen"` // logical data bytes
+	NFrames   int   `json:"nframes"`
+	MaxLen    int   `json:"maxlen"`
+	Tags      []int `json:"tags"`
+	Parsed    bool  `json:"parsed"`    // the server's stream was a sequence of complete, well-formed frames up to its end
+	StreamLen int   `json:"streamlen"` // logical data bytes
 	// what the client made of the re-framed stream
-	InjErr    bool   `json:"injerr"`
-	BaseOK    bool   `json:"baseok"`   // result of the unframed baseline run (true: success)
-	Result    string `json:"result"`
-	Err       string `json:"err"`
-	Same      bool   `json:"same"`     // destination tree / listing identical to the baseline
-	MsgOK     bool   `json:"msgok"`    // the error carries the server's (or injected) message
-	OutFrames int    `json:"outframes"`
+	InjErr    bool            `json:"injerr"`
+	BaseOK    bool            `json:"baseok"` // result of the unframed baseline run (true: success)
+	Result    string          `json:"result"`
+	Err       string          `json:"err"`
+	Same      bool            `json:"same"`  // destination tree / listing identical to the baseline
+	MsgOK     bool            `json:"msgok"` // the error carries the server's (or injected) message
+	OutFrames int             `json:"outframes"`
 	Scn       json.RawMessage `json:"scn"`
 }
 
